@@ -247,7 +247,7 @@ impl RtpsStatefulWriter {
                         ENTITYID_UNKNOWN,
                         writer_id,
                         change_seq_num,
-                        SequenceNumberSet::new(change_seq_num + 1, []),
+                        SequenceNumberSet::new(change_seq_num.saturating_add(1), []),
                     );
 
                     let rtps_message = RtpsMessageWrite::from_submessages(
@@ -665,7 +665,10 @@ impl RtpsReaderProxy {
                         ENTITYID_UNKNOWN,
                         writer_id,
                         next_requested_change_seq_num,
-                        SequenceNumberSet::new(next_requested_change_seq_num + 1, []),
+                        SequenceNumberSet::new(
+                            next_requested_change_seq_num.saturating_add(1),
+                            [],
+                        ),
                     );
 
                     let rtps_message = RtpsMessageWrite::from_submessages(
